@@ -589,6 +589,26 @@ def check(fx, rep, tier):
                 sample={"rule": "R10.5", "fn": b["def"], "instructions": T.short(t)[:60]},
             )
     rep.floor("R10.5", n_ctor, 1, "constructions of the instruction stream")
+    # ... from the *input* as it stands: the byte-slice conversion hands its parameter to the disassembler and has no other way
+    # of producing a stream (no decoding / trimming / recursion on derived bytes first)
+    for b in fx.fn_bodies():
+        if not (b.get("impl_trait") == "std::convert::TryFrom" and "InstructionStream" in (b.get("impl_self") or "") and b.get("hir")):
+            continue
+        fn = fx.fns.get(b["def"], {})
+        if "[u8]" not in " ".join(fn.get("inputs") or []):
+            continue
+        params = [p0.get("local") for p0 in b["hir"]["params"]]
+        dcalls = [c for c, _ in F.calls(b["hir"]["value"]) if F.strip_generics(F.callee_def(c) or "") == dis_fn]
+        arg_is_param = bool(dcalls) and all(F.local_of(F.strip(c["args"][0])) in params for c in dcalls if c["args"])
+        others = [c for c, _ in F.calls(b["hir"]["value"]) if "InstructionStream" in (c.get("ty") or "") and (F.callee_def(c) or "").split("::")[-1] in ("try_from", "from", "try_into", "into", "new") and not c.get("exp")]
+        rep.oblige(
+            arg_is_param and not others,
+            "R10.5",
+            f"input-as-it-stands:{F.strip_generics(b['def'])}",
+            F.loc(b["span"]),
+            f"`{b['def']}` does not hand its input to the disassembler as it stands (" + ("the disassembler is called on derived bytes" if not arg_is_param else f"it also produces a stream through {[ (F.callee_def(c) or '').split('::')[-1] for c in others]}") + "): some inputs are re-interpreted before disassembly, so the stream has not one entry per input byte",
+            sample={"rule": "R10.5", "fn": b["def"], "disassembles_parameter": arg_is_param, "other_stream_sources": len(others)},
+        )
     # push immediates are never jump destinations: the validator tests the *type* of the entry and JUMPDEST entries come only
     # from byte 0x5b of the table (C08 R08.1 / R08.4, re-evaluated)
     from .. import core
